@@ -281,6 +281,22 @@ func runC09(tier string, seed uint64) {
 					s.UploadPart(singleBucketName, "mp", id, 3, []byte("part-3"))
 					f.uploads = append(f.uploads, id)
 				}
+				// pending uploads on keys around ones whose uploads were aborted / completed
+				for _, mk := range []string{"ma", "mq", "mr", "mz/1", "mz/2"} {
+					id := s.Initiate(singleBucketName, mk, nil)
+					if id == "" {
+						continue
+					}
+					et := s.UploadPart(singleBucketName, mk, id, 1, []byte("p-"+mk))
+					switch mk {
+					case "mq", "mz/2":
+						s.Abort(singleBucketName, mk, id)
+					case "mr":
+						s.Complete(singleBucketName, mk, id, []CPart{{1, et}})
+					default:
+						f.uploads = append(f.uploads, id)
+					}
+				}
 			}
 			// regression corpus: the requests that used to panic or answer malformed errors
 			var corpus []Req
@@ -297,6 +313,11 @@ func runC09(tier string, seed uint64) {
 				for _, pn := range []string{"-1", "-9223372036854775808", "0", "2", "99999"} {
 					corpus = append(corpus, Req{Method: "POST", Path: "/" + singleBucketName + "/mp?uploadId=" + up,
 						Body: []byte("<CompleteMultipartUpload><Part><PartNumber>" + pn + "</PartNumber><ETag>x</ETag></Part></CompleteMultipartUpload>")})
+				}
+			}
+			for n := 0; n <= 5; n++ {
+				for _, extra := range []string{"", "&prefix=m", "&delimiter=%2F", "&prefix=m&delimiter=%2F", "&key-marker=ma", "&key-marker=mp", "&prefix=mz%2F"} {
+					corpus = append(corpus, Req{Method: "GET", Path: "/" + singleBucketName + "?uploads&max-uploads=" + strconv.Itoa(n) + extra})
 				}
 			}
 			for _, v := range append([]string{"3/none"}, f.vids...) {
@@ -350,7 +371,7 @@ func runC09(tier string, seed uint64) {
 			s.end()
 		}
 	}
-	sample("grammar: method x path (bucket pool incl. nosuch . .. _meta, key pool incl. hostile strings) x 0..3 query parameters out of 26 sub-resources/pagination parameters with valid, absurd, overflowing and non-numeric values x body (multi-delete / complete / versioning XML with hostile fields, malformed XML, random bytes, multipart forms with missing/duplicate parts, aws-chunked incl. truncated, hostile decoded lengths) x 0..2 headers (hostile Range, Content-MD5, X-Amz-Copy-Source, Content-Length, conditional headers, force-delete, oversized metadata) against stores holding objects, versions with a delete marker and a pending upload; every 25 requests a canary sequence on a fresh bucket and on the fuzzed bucket")
+	sample("grammar: method x path (bucket pool incl. nosuch . .. _meta, key pool incl. hostile strings) x 0..3 query parameters out of 26 sub-resources/pagination parameters with valid, absurd, overflowing and non-numeric values x body (multi-delete / complete / versioning XML with hostile fields, malformed XML, random bytes, multipart forms with missing/duplicate parts, aws-chunked incl. truncated, hostile decoded lengths) x 0..2 headers (hostile Range, Content-MD5, X-Amz-Copy-Source, Content-Length, conditional headers, force-delete, oversized metadata) against stores holding objects, versions with a delete marker, pending uploads with parts and keys whose uploads were aborted or completed (plus a fixed corpus of earlier crashers and of upload listings with every small max-uploads x prefix / delimiter / key-marker); every 25 requests a canary sequence on a fresh bucket and on the fuzzed bucket")
 }
 
 func truncate(b []byte, n int) []byte {
